@@ -1,19 +1,30 @@
 // C47: WebSocket and TLS stream tunnels are byte-transparent.
 //
-// Drives the REAL bfe_websocket protocol handler behind bfe_server's real conn/response (Hijack) objects
-// (NewProtoHandler -> serverConn.serve: findBackend,
-// websocketHandshake, websocketDataTransfer, wait loop) and the REAL bfe_stream handler (NewProtoHandler ->
-// serve: findBackend, TLSProxyHandler, wait loop; behind bfe_tls via bfe_util.MockServer) between a scripted
-// client and a scripted backend on loopback TCP.
+// Drives the REAL bfe_websocket protocol handler behind bfe_server's real conn/response (Hijack) objects and the REAL
+// bfe_stream handler behind bfe_tls (via bfe_util.MockServer) between a scripted client and a scripted backend on
+// loopback TCP.
 //
-// op     : <ws|tls|tlsr|t10c|t11c|t12c|t12g>;pc=<hex>;pb=<hex>;s=<step>,<step>,...      step = c:<hex> | b:<hex> | xc | xb
+// op     : <proto>;pc=<hex>;pb=<hex>;s=<step>,<step>,...
 //
-//	pc: bytes the client sends in the SAME write as the upgrade request (ws) / right behind the handshake (tls)
-//	pb: bytes the backend sends in the SAME write as its 101 response (ws) / immediately on accept (tls)
-//	c:/b: a further write by client / backend; xc/xb: that side closes (after draining what was sent to it so far)
+//	proto: ws (plain websocket) | wss (websocket, bfe_tls client) | wss0 (websocket, crypto/tls client at TLS1.0 CBC)
+//	       tls (stream tunnel, bfe_tls client) | tlsr (resumed session, first data in the same write as Finished)
+//	       t10c|t11c|t12c|t12g (stream tunnel, crypto/tls client at a fixed version/suite)
+//	pc: bytes the client sends in the SAME write as the upgrade request (ws*) / right behind the handshake (tls*)
+//	pb: bytes the backend sends in the SAME write as its 101 response (ws*) / immediately on accept (tls*)
+//	step: c:<hex> | b:<hex>  a further write by client / backend
+//	      C:<hex> | B:<hex>  the same as a ROUND (the script continues when the bytes have arrived)
+//	      xc | xb            that side closes (after draining what was sent to it so far)
+//	      hc | hb            that side HALF-closes (CloseWrite) and keeps reading
 //
 // result : B=<hex backend received> C=<hex client received> bclosed=<0|1> cclosed=<0|1>
-// Verdicts compare complete byte streams at the end; deadlines only bound the wait (5 s), they never decide.
+//
+//	ws*: + hs=<ok|...> (request line and every header of the upgrade request arrive at the backend, status and
+//	every header of the 101 response arrive at the client, values unchanged) x=<headers bfe ADDED to the 101>
+//
+// op     : big;p=<proto>;c=<n>;b=<n>;slow=<c|b|->;x=<c|b>   n patterned bytes each way, optional late reader (back-pressure)
+// result : B=<n>/<ok|bad@off> C=<n>/<ok|bad@off> bclosed=.. cclosed=..   (pattern verified by the harness)
+// op     : wr;v=<t10c|t11c|t12c|t12g>;n=<len>,...            io.Writer contract of bfe_tls.Conn.Write
+// Verdicts compare complete byte streams at the end; the 30 s watchdogs only bound the wait, they never decide.
 package main
 
 import (
@@ -23,6 +34,7 @@ import (
 	"fmt"
 	"io"
 	"net"
+	"sort"
 	"strings"
 	"sync"
 	"time"
@@ -37,7 +49,7 @@ import (
 	"github.com/bfenetworks/bfe/bfe_websocket"
 )
 
-const wait = 5 * time.Second
+const wait = 30 * time.Second
 
 // collector reads a connection to its end and lets others wait for a byte count
 type collector struct {
@@ -140,10 +152,15 @@ func setup() {
 	// TLS stream proxy
 	tlsSrv = bfe_util.NewUnstartedServer(nil)
 	tlsSrv.TLS = new(bfe_tls.Config)
-	tlsSrv.TLS.NextProtos = append(tlsSrv.TLS.NextProtos, "stream", "wr")
+	tlsSrv.TLS.NextProtos = append(tlsSrv.TLS.NextProtos, "stream", "wr", "wss")
 	tlsSrv.Config.TLSNextProto = make(map[string]func(*bfe_http.Server, *bfe_tls.Conn, bfe_http.Handler))
 	tlsSrv.Config.TLSNextProto["stream"] = bfe_stream.NewProtoHandler(&bfe_stream.Server{BalanceHandler: balance})
 	tlsSrv.Config.TLSNextProto["wr"] = wrHandler
+	// wss: the upgrade request arrives inside TLS; "wss" is only this harness's ALPN label to route to the hook
+	tlsSrv.Config.TLSNextProto["wss"] = func(hs *bfe_http.Server, c *bfe_tls.Conn, h bfe_http.Handler) {
+		defer c.Close()
+		bfe_server.VerifC47ServeUpgrade(c, bfe_websocket.CheckUpgradeWebSocket, handler)
+	}
 	tlsSrv.StartTLS()
 	primeResume()
 }
@@ -315,30 +332,225 @@ func execWrite(f []string) string {
 	return fmt.Sprintf("k=%s rcv=%d same=%d", strings.Join(out.ks, ","), len(got), b2i(bytes.Equal(got, out.sent)))
 }
 
-const upgradeReq = "GET /tunnel HTTP/1.1\r\nHost: verif.local\r\nUpgrade: websocket\r\nConnection: Upgrade\r\n" +
-	"Sec-WebSocket-Key: dGhlIHNhbXBsZSBub25jZQ==\r\nSec-WebSocket-Version: 13\r\n\r\n"
-const upgradeRsp = "HTTP/1.1 101 Switching Protocols\r\nUpgrade: websocket\r\nConnection: Upgrade\r\n" +
-	"Sec-WebSocket-Accept: s3pPLMBiTxaQ9kYGzzhZRbK+xOo=\r\n\r\n"
+// heads with odd header case, a repeated header and an empty value
+const upgradeReq = "GET /tunnel?x=1&y=%20z HTTP/1.1\r\nHost: verif.local\r\nupgrade: WebSocket\r\nCONNECTION: keep-alive, Upgrade\r\n" +
+	"Sec-WebSocket-Key: dGhlIHNhbXBsZSBub25jZQ==\r\nSec-WebSocket-Version: 13\r\nX-Odd-cASE: VaLuE  one\r\nX-Dup: a\r\nX-Dup: b\r\nX-Empty:\r\n\r\n"
+const upgradeRsp = "HTTP/1.1 101 Switching Protocols\r\nupgrade: WebSocket\r\nCONNECTION: Upgrade\r\n" +
+	"Sec-WebSocket-Accept: s3pPLMBiTxaQ9kYGzzhZRbK+xOo=\r\nx-odd-Case: VaLuE  two\r\nX-Dup: a\r\nX-Dup: b\r\nSec-WebSocket-Protocol: chat\r\n\r\n"
 
 // readHead reads byte by byte up to and including the first empty line
-func readHead(c net.Conn) error {
+func readHead(c net.Conn) ([]byte, error) {
 	c.SetReadDeadline(time.Now().Add(wait))
 	defer c.SetReadDeadline(time.Time{})
 	var h []byte
 	b := make([]byte, 1)
 	for !bytes.HasSuffix(h, []byte("\r\n\r\n")) {
 		if _, err := io.ReadFull(c, b); err != nil {
-			return err
+			return h, err
 		}
 		h = append(h, b[0])
 		if len(h) > 8192 {
-			return fmt.Errorf("head too long")
+			return h, fmt.Errorf("head too long")
 		}
 	}
-	return nil
+	return h, nil
+}
+
+// headFields: first line and the multiset of "lower(name):trimmed value"
+func headFields(h []byte) (string, []string) {
+	lines := strings.Split(strings.TrimSuffix(string(h), "\r\n\r\n"), "\r\n")
+	var out []string
+	for _, l := range lines[1:] {
+		i := strings.IndexByte(l, ':')
+		if i < 0 {
+			out = append(out, "?"+l)
+			continue
+		}
+		out = append(out, strings.ToLower(l[:i])+":"+strings.TrimSpace(l[i+1:]))
+	}
+	sort.Strings(out)
+	return lines[0], out
+}
+
+// headPreserved: got carries the first line of sent and every header of sent (same values, same multiplicity);
+// returns "ok" or what is missing, and the sorted lower-case names of the headers that were added
+func headPreserved(sent, got []byte) (string, string) {
+	l1, f1 := headFields(sent)
+	l2, f2 := headFields(got)
+	if l1 != l2 {
+		return "line", ""
+	}
+	cnt := map[string]int{}
+	for _, f := range f2 {
+		cnt[f]++
+	}
+	for _, f := range f1 {
+		if cnt[f] == 0 {
+			return "missing=" + strings.ReplaceAll(strings.SplitN(f, ":", 2)[0], " ", "_"), ""
+		}
+		cnt[f]--
+	}
+	var extra []string
+	seen := map[string]bool{}
+	for _, f := range f2 {
+		if cnt[f] > 0 {
+			n := strings.SplitN(f, ":", 2)[0]
+			if !seen[n] {
+				seen[n] = true
+				extra = append(extra, n)
+			}
+		}
+	}
+	if len(extra) == 0 {
+		return "ok", "-"
+	}
+	return "ok", strings.Join(extra, "+")
+}
+
+var tunnelProtos = map[string]bool{"ws": true, "wss": true, "wss0": true, "tls": true, "tlsr": true,
+	"t10c": true, "t11c": true, "t12c": true, "t12g": true}
+
+func isWS(p string) bool { return p == "ws" || p == "wss" || p == "wss0" }
+
+type tunnel struct {
+	cli, bk net.Conn
+	hs, hx  string // websocket: head preservation verdict, headers added to the 101 response
+}
+
+func (t *tunnel) close() {
+	if t.cli != nil {
+		t.cli.Close()
+	}
+	if t.bk != nil {
+		t.bk.Close()
+	} else { // failed before taking the backend connection: do not leave it to the next case
+		select {
+		case c := <-backendCh:
+			c.Close()
+		case <-time.After(time.Second):
+		}
+	}
+}
+
+// openTunnel establishes one tunnel through bfe; pc / pb travel with the upgrade request / the 101 response (ws*)
+// or directly behind the handshake / on accept (tls*).
+func openTunnel(proto string, pc, pb []byte) (*tunnel, string) {
+	for len(backendCh) > 0 { // stale backend conns of an earlier failed case
+		(<-backendCh).Close()
+	}
+	t := &tunnel{hs: "-", hx: "-"}
+	var err error
+	first := pc
+	if isWS(proto) {
+		first = append([]byte(upgradeReq), pc...)
+	}
+	switch proto {
+	case "ws":
+		t.cli, err = net.Dial("tcp", wsL.Addr().String())
+		if err != nil {
+			return t, "err:dial"
+		}
+	case "wss":
+		cfg := &bfe_tls.Config{InsecureSkipVerify: true, NextProtos: []string{"wss"}}
+		t.cli, err = bfe_tls.Dial("tcp", tlsSrv.Listener.Addr().String(), cfg)
+		if err != nil {
+			return t, "err:tls-dial"
+		}
+	case "tls":
+		cfg := &bfe_tls.Config{InsecureSkipVerify: true, NextProtos: []string{"stream"}}
+		t.cli, err = bfe_tls.Dial("tcp", tlsSrv.Listener.Addr().String(), cfg)
+		if err != nil {
+			return t, "err:tls-dial"
+		}
+	case "tlsr":
+		// RESUMED session (ticket from the priming connection); the client's final handshake flight
+		// (ChangeCipherSpec + Finished) is held back and goes out in the SAME write as its first application data
+		raw, err := net.Dial("tcp", tlsSrv.Listener.Addr().String())
+		if err != nil {
+			return t, "err:dial"
+		}
+		cw := &coalesceConn{Conn: raw, hold: true}
+		tc := bfe_tls.Client(cw, resumeCfg)
+		t.cli = tc
+		raw.SetDeadline(time.Now().Add(wait))
+		if err := tc.Handshake(); err != nil {
+			return t, "err:tls-handshake:" + err.Error()
+		}
+		raw.SetDeadline(time.Time{})
+		if !tc.ConnectionState().DidResume {
+			return t, "err:not-resumed"
+		}
+		cw.release()
+		if len(first) == 0 {
+			if err := cw.flush(); err != nil {
+				return t, "err:flush"
+			}
+		}
+	default: // crypto/tls client at a fixed version / suite: bfe's client-side conn is a bfe_tls server Conn
+		name, alpn := proto, "stream"
+		if proto == "wss0" {
+			name, alpn = "t10c", "wss"
+		}
+		cfg := stdCfg(name, alpn)
+		sc, err := stdtls.Dial("tcp", tlsSrv.Listener.Addr().String(), cfg)
+		if err != nil {
+			return t, "err:std-dial:" + err.Error()
+		}
+		t.cli = sc
+		if st := sc.ConnectionState(); st.Version != cfg.MinVersion || st.NegotiatedProtocol != alpn {
+			return t, "err:std-negotiation"
+		}
+	}
+	if len(first) > 0 {
+		if _, err = t.cli.Write(first); err != nil {
+			return t, "err:write-first"
+		}
+	}
+	select {
+	case t.bk = <-backendCh:
+	case <-time.After(wait):
+		return t, "err:no-backend-conn"
+	}
+	if isWS(proto) {
+		rq, err := readHead(t.bk)
+		if err != nil {
+			return t, "err:backend-head"
+		}
+		if _, err := t.bk.Write(append([]byte(upgradeRsp), pb...)); err != nil {
+			return t, "err:backend-rsp"
+		}
+		rs, err := readHead(t.cli)
+		if err != nil {
+			return t, "err:client-head"
+		}
+		v1, _ := headPreserved([]byte(upgradeReq), rq)
+		v2, x2 := headPreserved([]byte(upgradeRsp), rs)
+		switch {
+		case v1 != "ok":
+			t.hs = "req-" + v1
+		case v2 != "ok":
+			t.hs = "rsp-" + v2
+		default:
+			t.hs = "ok"
+		}
+		t.hx = x2
+	} else if len(pb) > 0 {
+		if _, err := t.bk.Write(pb); err != nil {
+			return t, "err:write-pb"
+		}
+	}
+	return t, ""
 }
 
 type halfCloser interface{ CloseWrite() error }
+
+func halfClose(c net.Conn) {
+	if h, ok := c.(halfCloser); ok {
+		h.CloseWrite()
+		return
+	}
+	c.Close()
+}
 
 func exec(op string) string {
 	once.Do(setup)
@@ -346,8 +558,10 @@ func exec(op string) string {
 	if f[0] == "wr" {
 		return execWrite(f)
 	}
-	_, isStd := stdClient[f[0]]
-	if len(f) != 4 || (f[0] != "ws" && f[0] != "tls" && f[0] != "tlsr" && !isStd) || !strings.HasPrefix(f[1], "pc=") ||
+	if f[0] == "big" {
+		return execBig(f)
+	}
+	if len(f) != 4 || !tunnelProtos[f[0]] || !strings.HasPrefix(f[1], "pc=") ||
 		!strings.HasPrefix(f[2], "pb=") || !strings.HasPrefix(f[3], "s=") {
 		return "bad-op"
 	}
@@ -364,9 +578,9 @@ func exec(op string) string {
 	if f[3][2:] != "-" {
 		for _, s := range strings.Split(f[3][2:], ",") {
 			switch {
-			case s == "xc" || s == "xb":
+			case s == "xc" || s == "xb" || s == "hc" || s == "hb":
 				steps = append(steps, step{kind: s})
-			case strings.HasPrefix(s, "c:") || strings.HasPrefix(s, "b:") || strings.HasPrefix(s, "C:") || strings.HasPrefix(s, "B:"):
+			case len(s) >= 2 && s[1] == ':' && strings.ContainsRune("cbCB", rune(s[0])):
 				d, ok := vh.UnHex(s[2:])
 				if !ok {
 					return "bad-op"
@@ -377,110 +591,12 @@ func exec(op string) string {
 			}
 		}
 	}
-	// drain stale backend conns of an earlier failed case
-	for len(backendCh) > 0 {
-		(<-backendCh).Close()
+	t, e := openTunnel(f[0], pc, pb)
+	defer t.close()
+	if e != "" {
+		return e
 	}
-
-	var cli net.Conn
-	var err error
-	var bk net.Conn
-	defer func() {
-		if bk == nil { // failed before taking the backend connection: do not leave it to the next case
-			select {
-			case c := <-backendCh:
-				c.Close()
-			case <-time.After(time.Second):
-			}
-		}
-	}()
-	if f[0] == "ws" {
-		cli, err = net.Dial("tcp", wsL.Addr().String())
-		if err != nil {
-			return "err:dial"
-		}
-		if _, err = cli.Write(append([]byte(upgradeReq), pc...)); err != nil {
-			return "err:write-upgrade"
-		}
-	} else if isStd {
-		// the client side of the tunnel is a bfe_tls SERVER conn at a chosen version / suite; Go's crypto/tls is the client
-		cfg := stdCfg(f[0], "stream")
-		sc, err := stdtls.Dial("tcp", tlsSrv.Listener.Addr().String(), cfg)
-		if err != nil {
-			return "err:std-dial:" + err.Error()
-		}
-		if st := sc.ConnectionState(); st.Version != cfg.MinVersion || st.NegotiatedProtocol != "stream" {
-			sc.Close()
-			return "err:std-negotiation"
-		}
-		cli = sc
-		if len(pc) > 0 {
-			if _, err = cli.Write(pc); err != nil {
-				return "err:write-pc"
-			}
-		}
-	} else if f[0] == "tls" {
-		cfg := &bfe_tls.Config{InsecureSkipVerify: true, NextProtos: []string{"stream"}}
-		cli, err = bfe_tls.Dial("tcp", tlsSrv.Listener.Addr().String(), cfg)
-		if err != nil {
-			return "err:tls-dial"
-		}
-		if len(pc) > 0 {
-			if _, err = cli.Write(pc); err != nil {
-				return "err:write-pc"
-			}
-		}
-	} else {
-		// tlsr: RESUMED session (ticket from the priming connection); the client's final handshake flight
-		// (ChangeCipherSpec + Finished) is held back and goes out in the SAME write as its first application data
-		raw, err := net.Dial("tcp", tlsSrv.Listener.Addr().String())
-		if err != nil {
-			return "err:dial"
-		}
-		cw := &coalesceConn{Conn: raw, hold: true}
-		tc := bfe_tls.Client(cw, resumeCfg)
-		raw.SetDeadline(time.Now().Add(wait))
-		if err := tc.Handshake(); err != nil {
-			raw.Close()
-			return "err:tls-handshake:" + err.Error()
-		}
-		raw.SetDeadline(time.Time{})
-		if !tc.ConnectionState().DidResume {
-			raw.Close()
-			return "err:not-resumed"
-		}
-		cli = tc
-		cw.release()
-		if len(pc) > 0 {
-			if _, err = cli.Write(pc); err != nil {
-				return "err:write-pc"
-			}
-		} else if err := cw.flush(); err != nil {
-			return "err:flush"
-		}
-	}
-	defer cli.Close()
-	select {
-	case bk = <-backendCh:
-	case <-time.After(wait):
-		return "err:no-backend-conn"
-	}
-	defer bk.Close()
-	if f[0] == "ws" {
-		if err := readHead(bk); err != nil {
-			return "err:backend-head"
-		}
-		if _, err := bk.Write(append([]byte(upgradeRsp), pb...)); err != nil {
-			return "err:backend-rsp"
-		}
-		if err := readHead(cli); err != nil {
-			return "err:client-head"
-		}
-	} else if len(pb) > 0 {
-		if _, err := bk.Write(pb); err != nil {
-			return "err:write-pb"
-		}
-	}
+	cli, bk := t.cli, t.bk
 	cc, bc := newCollector(), newCollector()
 	go cc.run(cli, nil)
 	go bc.run(bk, nil)
@@ -488,43 +604,39 @@ func exec(op string) string {
 	closed := ""
 	for _, s := range steps {
 		switch s.kind {
-		case "c":
+		case "c", "C":
 			if _, err := cli.Write(s.data); err != nil {
 				closed = "c" // the tunnel is gone: stop the script, report what arrived
 				break
 			}
 			sentC += len(s.data)
-		case "b":
+			if s.kind == "C" && !bc.waitFor(func() bool { return len(bc.buf) >= sentC || bc.done }) {
+				closed = "c"
+			}
+		case "b", "B":
 			if _, err := bk.Write(s.data); err != nil {
 				closed = "b"
 				break
 			}
 			sentB += len(s.data)
-		case "C": // a round: the client writes and the script goes on only when the backend has it
-			if _, err := cli.Write(s.data); err != nil {
-				closed = "c"
-				break
-			}
-			sentC += len(s.data)
-			if !bc.waitFor(func() bool { return len(bc.buf) >= sentC || bc.done }) {
-				closed = "c"
-			}
-		case "B": // a round: the backend writes and the script goes on only when the client has it
-			if _, err := bk.Write(s.data); err != nil {
-				closed = "b"
-				break
-			}
-			sentB += len(s.data)
-			if !cc.waitFor(func() bool { return len(cc.buf) >= sentB || cc.done }) {
+			if s.kind == "B" && !cc.waitFor(func() bool { return len(cc.buf) >= sentB || cc.done }) {
 				closed = "b"
 			}
-		case "xc": // the client has seen everything sent to it so far, then closes; its own bytes may be in flight
+		case "xc", "hc": // the client has seen everything sent to it so far, then closes; its own bytes may be in flight
 			cc.waitFor(func() bool { return len(cc.buf) >= sentB || cc.done })
-			cli.Close()
+			if s.kind == "hc" {
+				halfClose(cli)
+			} else {
+				cli.Close()
+			}
 			closed = "c"
-		case "xb":
+		case "xb", "hb":
 			bc.waitFor(func() bool { return len(bc.buf) >= sentC || bc.done })
-			bk.Close()
+			if s.kind == "hb" {
+				halfClose(bk)
+			} else {
+				bk.Close()
+			}
 			closed = "b"
 		}
 		if closed != "" {
@@ -535,9 +647,8 @@ func exec(op string) string {
 		cc.waitFor(func() bool { return len(cc.buf) >= sentB || cc.done })
 		bc.waitFor(func() bool { return len(bc.buf) >= sentC || bc.done })
 		cli.Close()
-		closed = "c"
 	}
-	// the other side must see the end of the tunnel
+	// both sides must see the end of the tunnel
 	cdone := cc.waitFor(func() bool { return cc.done })
 	bdone := bc.waitFor(func() bool { return bc.done })
 	cc.mu.Lock()
@@ -545,6 +656,181 @@ func exec(op string) string {
 	res := fmt.Sprintf("B=%s C=%s bclosed=%d cclosed=%d", vh.Hex(bc.buf), vh.Hex(cc.buf), b2i(bdone), b2i(cdone))
 	bc.mu.Unlock()
 	cc.mu.Unlock()
+	if isWS(f[0]) {
+		res += " hs=" + t.hs + " x=" + t.hx
+	}
+	return res
+}
+
+// ---------------------------------------------------------------------------------------------
+// big transfers with back-pressure: `big;p=<proto>;c=<n>;b=<n>;slow=<c|b|->;x=<c|b>`
+// Each side writes n patterned bytes (64 KiB writes); each receiver checks the pattern while reading.  The `slow`
+// side starts reading only when the opposite direction is complete and its peer has written 1 MiB, so for transfers
+// larger than the socket buffers the relay's Write towards it must block and resume (no timing in the verdict).
+
+func bigPat(off int, salt byte) byte {
+	x := uint32(off)*2654435761 + uint32(salt)*97
+	return byte(x>>24) ^ byte(off)
+}
+
+type bigRecv struct {
+	mu   sync.Mutex
+	cond *sync.Cond
+	n    int
+	bad  int
+	end  bool
+}
+
+func newBigRecv() *bigRecv { r := &bigRecv{bad: -1}; r.cond = sync.NewCond(&r.mu); return r }
+
+func (res *bigRecv) read(r io.Reader, salt byte, gate <-chan struct{}, small bool) {
+	if gate != nil {
+		<-gate
+	}
+	sz := 64 * 1024
+	if small {
+		sz = 4096
+	}
+	buf := make([]byte, sz)
+	for {
+		n, err := r.Read(buf)
+		res.mu.Lock()
+		for i := 0; i < n; i++ {
+			if res.bad < 0 && buf[i] != bigPat(res.n+i, salt) {
+				res.bad = res.n + i
+			}
+		}
+		res.n += n
+		if err != nil {
+			res.end = true
+		}
+		res.cond.Broadcast()
+		res.mu.Unlock()
+		if err != nil {
+			return
+		}
+	}
+}
+
+// waitFor blocks until pred holds or the watchdog fires
+func (res *bigRecv) waitFor(d time.Duration, pred func() bool) bool {
+	deadline := time.Now().Add(d)
+	t := time.AfterFunc(d, func() { res.mu.Lock(); res.cond.Broadcast(); res.mu.Unlock() })
+	defer t.Stop()
+	res.mu.Lock()
+	defer res.mu.Unlock()
+	for !pred() {
+		if time.Now().After(deadline) {
+			return false
+		}
+		res.cond.Wait()
+	}
+	return true
+}
+
+func bigWrite(w io.Writer, n int, salt byte, mark chan<- struct{}, fin chan<- error) {
+	buf := make([]byte, 64*1024)
+	marked := false
+	for off := 0; off < n; {
+		k := len(buf)
+		if n-off < k {
+			k = n - off
+		}
+		for i := 0; i < k; i++ {
+			buf[i] = bigPat(off+i, salt)
+		}
+		if _, err := w.Write(buf[:k]); err != nil {
+			if !marked && mark != nil {
+				close(mark)
+			}
+			fin <- err
+			return
+		}
+		off += k
+		if !marked && mark != nil && off >= 1<<20 {
+			close(mark)
+			marked = true
+		}
+	}
+	if !marked && mark != nil {
+		close(mark)
+	}
+	fin <- nil
+}
+
+func execBig(f []string) string {
+	kv := map[string]string{}
+	for _, x := range f[1:] {
+		p := strings.SplitN(x, "=", 2)
+		if len(p) != 2 {
+			return "bad-op"
+		}
+		kv[p[0]] = p[1]
+	}
+	var nc, nb int
+	if _, err := fmt.Sscanf(kv["c"], "%d", &nc); err != nil || nc < 0 || nc > 1<<28 {
+		return "bad-op"
+	}
+	if _, err := fmt.Sscanf(kv["b"], "%d", &nb); err != nil || nb < 0 || nb > 1<<28 {
+		return "bad-op"
+	}
+	slow, closer := kv["slow"], kv["x"]
+	if !tunnelProtos[kv["p"]] || (slow != "c" && slow != "b" && slow != "-") || (closer != "c" && closer != "b") || len(kv) != 5 {
+		return "bad-op"
+	}
+	t, e := openTunnel(kv["p"], nil, nil)
+	defer t.close()
+	if e != "" {
+		return e
+	}
+	// client receives the backend's stream (salt 'b'), backend receives the client's (salt 'c')
+	rc, rb := newBigRecv(), newBigRecv()
+	cWrote, bWrote := make(chan struct{}), make(chan struct{}) // closed when that side has written 1 MiB (or all)
+	cFin, bFin := make(chan error, 1), make(chan error, 1)
+	fastDone := make(chan struct{})
+	var cGate, bGate chan struct{}
+	if slow == "c" {
+		cGate = make(chan struct{})
+		go func() { <-bWrote; <-fastDone; close(cGate) }()
+	} else if slow == "b" {
+		bGate = make(chan struct{})
+		go func() { <-cWrote; <-fastDone; close(bGate) }()
+	}
+	go rc.read(t.cli, 'b', cGate, slow == "c")
+	go rb.read(t.bk, 'c', bGate, slow == "b")
+	go bigWrite(t.cli, nc, 'c', cWrote, cFin)
+	go bigWrite(t.bk, nb, 'b', bWrote, bFin)
+	// the fast direction completes first (its receiver has everything), which releases the late reader
+	if slow == "c" {
+		rb.waitFor(4*wait, func() bool { return rb.n >= nc || rb.end })
+	} else if slow == "b" {
+		rc.waitFor(4*wait, func() bool { return rc.n >= nb || rc.end })
+	}
+	close(fastDone)
+	// everything must have ARRIVED before a side closes (otherwise the close would legitimately cut the tail)
+	rc.waitFor(4*wait, func() bool { return rc.n >= nb || rc.end })
+	rb.waitFor(4*wait, func() bool { return rb.n >= nc || rb.end })
+	if closer == "c" {
+		halfClose(t.cli)
+	} else {
+		halfClose(t.bk)
+	}
+	rc.waitFor(wait, func() bool { return rc.end })
+	rb.waitFor(wait, func() bool { return rb.end })
+	rc.mu.Lock()
+	rb.mu.Lock()
+	defer rc.mu.Unlock()
+	defer rb.mu.Unlock()
+	fm := func(r *bigRecv) string {
+		if r.bad >= 0 {
+			return fmt.Sprintf("%d/bad@%d", r.n, r.bad)
+		}
+		return fmt.Sprintf("%d/ok", r.n)
+	}
+	res := fmt.Sprintf("B=%s C=%s bclosed=%d cclosed=%d", fm(rb), fm(rc), b2i(rb.end), b2i(rc.end))
+	if isWS(kv["p"]) {
+		res += " hs=" + t.hs + " x=" + t.hx
+	}
 	return res
 }
 
@@ -579,7 +865,10 @@ func size(r *vh.Rand) int {
 	case 2:
 		return r.Range(32760, 32780) // around io.Copy's 32 KiB buffer
 	case 3:
-		return r.Range(40000, 90000)
+		if vh.Thorough || r.Chance(1, 6) {
+			return r.Range(40000, 90000)
+		}
+		return r.Range(16380, 16390) // around one TLS record
 	case 4, 5:
 		return r.Range(100, 3000)
 	}
@@ -599,9 +888,17 @@ func genWrite(r *vh.Rand) string {
 		case 1:
 			n = r.Range(16380, 16390) // around maxPlaintext
 		case 2:
-			n = r.Range(32760, 32775)
+			if vh.Thorough {
+				n = r.Range(32760, 32775)
+			} else {
+				n = r.Range(2, 40)
+			}
 		case 3:
-			n = r.Range(16384, 70000)
+			if vh.Thorough {
+				n = r.Range(16384, 70000)
+			} else {
+				n = r.Range(2, 4000)
+			}
 		default:
 			n = r.Range(2, 4000)
 		}
@@ -610,26 +907,73 @@ func genWrite(r *vh.Rand) string {
 	return fmt.Sprintf("wr;v=%s;n=%s", stdNames[r.Intn(len(stdNames))], strings.Join(ns, ","))
 }
 
+var allProtos = []string{"ws", "wss", "wss0", "tls", "tlsr", "t10c", "t11c", "t12c", "t12g"}
+
+func genBig(r *vh.Rand) string {
+	mb := func() int {
+		switch r.Intn(4) {
+		case 0:
+			return r.Intn(2000)
+		case 1:
+			return r.Range(1<<20, 4<<20)
+		}
+		return r.Range(8<<20, 24<<20) // beyond what the socket buffers of both hops can hold
+	}
+	return fmt.Sprintf("big;p=%s;c=%d;b=%d;slow=%s;x=%s", allProtos[r.Intn(len(allProtos))], mb(), mb(),
+		r.Pick("c", "b", "-"), r.Pick("c", "b"))
+}
+
+// quick tier: mostly plain websocket / bfe_tls tunnels with moderate sizes; the crypto/tls-client variants, wss, the
+// large Write lengths and the big transfers are mostly left to the thorough tier (a deterministic set of them runs
+// in every tier, see pre)
 func gen(r *vh.Rand) string {
-	if r.Chance(1, 8) {
+	if vh.Thorough {
+		if r.Chance(1, 8) {
+			return genWrite(r)
+		}
+		if r.Chance(1, 10) {
+			return genBig(r)
+		}
+	} else if r.Chance(1, 24) {
 		return genWrite(r)
 	}
 	proto := "ws"
-	switch r.Intn(20) {
-	case 0, 1, 2, 3, 4:
-		proto = "tls"
-	case 5, 6, 7, 8, 9:
-		proto = "tlsr" // resumed session, first data coalesced with the client's Finished
-	case 10, 11, 12, 13:
-		proto = stdNames[r.Intn(len(stdNames))] // bfe_tls server conn at TLS 1.0/1.1 CBC or 1.2 CBC/AEAD towards the client
+	k20 := r.Intn(20)
+	if vh.Thorough {
+		switch {
+		case k20 < 3:
+			proto = "tls"
+		case k20 < 7:
+			proto = "tlsr"
+		case k20 < 11:
+			proto = stdNames[r.Intn(len(stdNames))]
+		case k20 < 13:
+			proto = "wss"
+		case k20 < 15:
+			proto = "wss0"
+		}
+	} else {
+		switch {
+		case k20 < 3:
+			proto = "tls"
+		case k20 < 7:
+			proto = "tlsr"
+		case k20 < 9:
+			proto = stdNames[r.Intn(len(stdNames))]
+		case k20 < 11:
+			proto = "wss"
+		case k20 < 12:
+			proto = "wss0"
+		}
 	}
 	_, std := stdClient[proto]
+	std = std || proto == "wss0"
 	pc, pb := &pat{}, &pat{pos: 1 << 20}
 	var pcb, pbb []byte
 	if r.Chance(2, 3) {
 		n := size(r)
-		if proto == "ws" && r.Chance(1, 2) {
-			n = r.Range(3800, 4400) // fill the request's bufio buffer: request (173 bytes) + pipelined data around 4096
+		if isWS(proto) && r.Chance(1, 2) {
+			n = r.Range(3600, 4200) // fill the request's bufio buffer: request (~300 bytes) + pipelined data around 4096
 		}
 		pcb = pc.take(n, 'c')
 	}
@@ -638,8 +982,8 @@ func gen(r *vh.Rand) string {
 	}
 	if r.Chance(2, 3) {
 		n := size(r)
-		if proto == "ws" && r.Chance(1, 2) {
-			n = r.Range(3900, 4200)
+		if isWS(proto) && r.Chance(1, 2) {
+			n = r.Range(3800, 4200)
 		}
 		pbb = pb.take(n, 'b')
 	}
@@ -663,11 +1007,15 @@ func gen(r *vh.Rand) string {
 			steps = append(steps, "b:"+vh.Hex(pb.take(size(r), 'b')))
 		}
 	}
-	switch r.Intn(3) {
+	switch r.Intn(6) {
 	case 0:
 		steps = append(steps, "xc")
 	case 1:
 		steps = append(steps, "xb")
+	case 2:
+		steps = append(steps, "hc") // half-close: CloseWrite, keep reading
+	case 3:
+		steps = append(steps, "hb")
 	}
 	s := "-"
 	if len(steps) > 0 {
@@ -676,4 +1024,29 @@ func gen(r *vh.Rand) string {
 	return fmt.Sprintf("%s;pc=%s;pb=%s;s=%s", proto, vh.Hex(pcb), vh.Hex(pbb), s)
 }
 
-func main() { vh.Main(gen, exec) }
+// pre: the deterministic set that runs in every tier
+func pre(emit func(string), thorough bool) {
+	// several backend rounds towards a client whose conn inside bfe is a bfe_tls server Conn (1/n-1 split at TLS 1.0)
+	for _, p := range []string{"t10c", "t11c", "t12c", "t12g", "wss0", "wss", "tls", "ws"} {
+		emit(p + ";pc=0102;pb=0a0b0c;s=B:0d0e0f,C:06,B:1112,B:131415161718,C:07,xc")
+		emit(p + ";pc=-;pb=-;s=B:0d0e,B:0f10,hb")
+		emit(p + ";pc=01;pb=-;s=C:0203,hc")
+	}
+	// io.Writer contract at the record boundaries
+	for _, v := range []string{"t10c", "t11c", "t12c", "t12g"} {
+		emit("wr;v=" + v + ";n=0,1,2,3,16383,16384,16385,16386,32768,32769")
+	}
+	// back-pressure: more than the socket buffers hold, late reader on either side
+	emit("big;p=ws;c=1000;b=12000000;slow=c;x=c")
+	emit("big;p=tls;c=12000000;b=1000;slow=b;x=b")
+	if thorough {
+		emit("big;p=wss0;c=30000000;b=30000000;slow=c;x=b")
+		emit("big;p=t10c;c=40000000;b=100;slow=b;x=c")
+		emit("big;p=tlsr;c=100;b=40000000;slow=c;x=c")
+	}
+}
+
+func main() {
+	vh.Pre = pre
+	vh.Main(gen, exec)
+}
